@@ -590,9 +590,56 @@ def u13_option_table(prog, ctx, rule="U13"):
     ctx.floor("C19 long options", n, 4)
 
 
+def u14_u16(prog, ctx):
+    """U14: the escape translation of --delimiters (replace_str) puts the replacement where the ORIGINAL text stood: the tail it keeps
+    starts behind the original (`p + strlen(orig)` with p = strstr(str, orig)), whatever the length of the replacement.
+    U15: the suffix of the configuration name is what follows its LAST dot (strrchr): `org.example.conf` has the suffix `.conf`; the
+    drop-in files are selected by that suffix.
+    U16: `cat` shows the files as the library reads them for `show` - the history variants parse without JOIN_SAME_ENTRIES / PYTHON_STYLE
+    (= C12.F5)."""
+    if prog.has_fn("replace_str", util=True):
+        f = prog.fn("replace_str", util=True)
+        ctx.touch(f)
+        finds = [(l, r, st) for l, r, st in f.assignments() if r is not None and any(
+            x.k == "CallExpr" and x.j.get("callee") in ("strstr", "strcasestr") for x in r.walk())]
+        done = False
+        for l, r, st in finds:
+            pv = l["name"] if isinstance(l, dict) else render(l)
+            call = next(x for x in r.walk() if x.k == "CallExpr" and x.j.get("callee") in ("strstr", "strcasestr"))
+            needle = render(call.call_args()[1])
+            for x in f.walk():
+                if x.k == "BinaryOperator" and x.j.get("op") == "+" and render(x.children[0]) == pv and x.children[1].strip().k == "CallExpr" \
+                        and x.children[1].strip().j.get("callee") == "strlen":
+                    done = True
+                    got = render(x.children[1].strip().call_args()[0])
+                    if got == needle:
+                        ctx.ok("U14", "replace_str keeps the text behind the original", x.where, "%s + strlen(%s)" % (pv, needle))
+                    else:
+                        ctx.fail("U14", "replace_str keeps the text behind the original", x.where,
+                                 "`%s`: the tail starts strlen(%s) bytes behind the match, the text replaced is `%s` - for an escape like \\t (2 bytes, replaced by 1) "
+                                 "the letter of the escape stays in the delimiter set" % (render(x), got, needle), key="replace-tail")
+        if not done:
+            ctx.inconclusive("U14", "replace_str keeps the text behind the original", f.where, "form of the replacement not understood")
+    m = prog.fn("main", util=True)
+    dots = [c for c in m.calls(("strchr", "strrchr", "index", "rindex")) if len(c.call_args()) == 2 and c.call_args()[1].const_value() == ord(".")]
+    if not dots:
+        ctx.inconclusive("U15", "the suffix starts at the last dot of the name", m.where, "no search for '.' in main()")
+    for c in dots:
+        if c.j["callee"] in ("strrchr", "rindex"):
+            ctx.ok("U15", "the suffix starts at the last dot of the name", c.where, render(c)[:60])
+        else:
+            ctx.fail("U15", "the suffix starts at the last dot of the name", c.where,
+                     "`%s` finds the FIRST dot: for `org.example.conf` the suffix becomes `.example.conf`, no drop-in `*.conf` is selected and the tool shows, "
+                     "checks and lists less than an application reading that name gets" % render(c)[:60], key="suffix-first-dot")
+    from rules import common as _common
+    from rules import C12 as _C12
+    _common.import_obligations(ctx, prog, [_C12.f1_f3_f5], "U16", "cat reads as show does: ", keep=lambda ob: ob.rule == "F5", what="flags of the history variants")
+
+
 def run(prog, ctx):
     u11_u12_imports(prog, ctx)
     u13_option_table(prog, ctx)
+    u14_u16(prog, ctx)
     u1(prog, ctx)
     u2(prog, ctx)
     u3_u4(prog, ctx)
